@@ -249,4 +249,5 @@ var allowedCutPrefixes = []string{
 	"(*fmt.wrapError).", "(*fmt.wrapErrors).",
 	"(time.Time).", "(*time.Time).", "(time.Duration).", "(time.Month).", "(time.Weekday).",
 	"(io/fs.FileMode).",
+	"(context.emptyCtx).", "(context.backgroundCtx).", "(context.deadlineExceededError).",
 }
